@@ -9,6 +9,7 @@ From HV Require Import Base.Keccak Model.SetOps Gen.GenInvFilters Spec.FrontierS
 From HV Require Import Spec.StateIdSpec Model.StateIdModel Gen.GenStorageDigest Gen.GenStateId Proofs.StateIdProofs.
 From HV Require Import Spec.PathSliceSpec Model.PathSliceModel Gen.GenPathSlice Proofs.PathSliceProofs.
 From HV Require Import Spec.ProbeSpec Gen.GenProbes Model.ProbeModel Proofs.ProbeProofs.
+From HV Require Import Gen.GenSolverLife Spec.SolverLifeSpec Model.SolverLifeModel Proofs.SolverLifeProofs.
 Import ListNotations.
 Open Scope Z_scope.
 
@@ -375,3 +376,47 @@ Example C15_filters_nonvacuous :
   resolve_target_contracts [] [3] [(4, [9])] [1; 2; 3] 1 = [2; 4] /\
   sender_allowed [7; 8] [8] 7 = true /\ sender_allowed [7; 8] [8] 9 = false /\ sender_allowed [8] [8] 9 = true.
 Proof. repeat split; reflexivity. Qed.
+
+(* ------------------------------------------------------------------ the invariant's own run on every frontier state *)
+
+(* C15_cover puts every bounded call sequence into a frontier state on which "the invariant is run";
+   C15_pass_sound takes the completeness of that run as a function of the state ALONE (inv_ok).
+   run_message runs the invariant on every state of every frontier with a z3 solver that still holds
+   the conditions of the path explored last when a run returns; the solver context is explicit state of
+   the model (Model/SolverLifeModel.v), where the solver is created / emptied relative to the two loops
+   is regenerated from __main__.py (Gen/GenSolverLife.v).  For every condition language with a sound
+   and complete solver, all frontiers (any number of depths and states, any order), every state in them
+   and every concrete state it stands for: the outcome the invariant (a decision tree over conditions,
+   Spec/SolverLifeSpec.v) has on that concrete state is among the outcomes run_message reports for the
+   state -- in particular a violation is. *)
+Theorem C15_invariant_run_covers_state :
+  forall (cond env : Type) (neg : cond -> cond) (sat : list cond -> bool) (holds : env -> cond -> bool),
+    (forall cs, sat cs = true <-> exists e, satisfies holds e cs) ->
+    (forall e c, holds e (neg c) = negb (holds e c)) ->
+    forall (fr : list (list (fstate cond))) (d i : nat) (st : fstate cond) (e : env),
+      at_pos fr d i = Some st -> satisfies holds e (f_slice st) ->
+      exists outs, at_pos (life_run cond neg sat gen_life fr) d i = Some outs /\
+                   In (run_env holds e (f_prog st)) outs.
+Proof. exact (gen_life_covers_of (eq_refl true)). Qed.
+Print Assumptions C15_invariant_run_covers_state.
+
+(* the run on a state alone finds exactly the outcomes the invariant has on the state (when the
+   state's own constraints are satisfiable) *)
+Theorem C15_invariant_run_alone_exact :
+  forall (cond env : Type) (neg : cond -> cond) (sat : list cond -> bool) (holds : env -> cond -> bool),
+    (forall cs, sat cs = true <-> exists e, satisfies holds e cs) ->
+    (forall e c, holds e (neg c) = negb (holds e c)) ->
+    forall (st : fstate cond) (o : Z),
+      (exists e, satisfies holds e (f_slice st)) ->
+      (In o (alone cond neg sat st) <-> outcome_of holds st o).
+Proof. exact alone_exact. Qed.
+Print Assumptions C15_invariant_run_alone_exact.
+
+(* with one solver for all the states of a test, a state whose own constraint contradicts what the last
+   path of the previous state left behind is not explored at all: its violation (outcome 1) is lost *)
+Theorem C15_shared_solver_loses_violation :
+  exists (fr : list (list (fstate eqlit))) (d i : nat) (st : fstate eqlit),
+    at_pos fr d i = Some st /\ In 1 (l_alone st) /\
+    at_pos (l_life_run (mkLife InTest (Some InTest)) fr) d i = Some [].
+Proof. exact shared_solver_state_lost. Qed.
+Print Assumptions C15_shared_solver_loses_violation.
